@@ -8,7 +8,7 @@ ID = 'C04'
 PROPS_FILE = 'theories/Props/C04.v'
 PROPS_MODULE = 'Props.C04'
 COQ_TARGETS = ['theories/Extract/ExtractSyntax.vo']
-REQUIRED_THEOREMS = ['C04_serialize_total', 'C04_indent_balanced', 'C04_output_extends', 'C04_junk_verbatim', 'C04_junk_skipped', 'C04_comment_lines', 'C04_roundtrip_simple_partial', 'C04_fixpoint_simple_partial', 'C04_simple_are_parser_outputs', 'C04_roundtrip_multiline_partial', 'C04_fixpoint_multiline_partial', 'C04_multiline_output', 'C04_multiline_contains_parser_outputs', 'C04_simple_in_multiline', 'C04_roundtrip_select_partial', 'C04_fixpoint_select_partial', 'C04_select_output', 'C04_select_contains_parser_outputs', 'C04_multiline_in_select', 'C04_roundtrip_wellformed_sources_partial', 'C04_roundtrip_layout_sources_partial', 'C04_parser_output_shape', 'C04_roundtrip_parser_outputs_partial', 'C04_roundtrip_covered_partial', 'C04_parser_output_utf8', 'C04_roundtrip_str_inputs_partial', 'C04_roundtrip_nested_partial', 'C04_fixpoint_nested_partial', 'C04_nested_output', 'C04_nested_contains_parser_outputs']
+REQUIRED_THEOREMS = ['C04_serialize_total', 'C04_indent_balanced', 'C04_output_extends', 'C04_junk_verbatim', 'C04_junk_skipped', 'C04_comment_lines', 'C04_roundtrip_simple_partial', 'C04_fixpoint_simple_partial', 'C04_simple_are_parser_outputs', 'C04_roundtrip_multiline_partial', 'C04_fixpoint_multiline_partial', 'C04_multiline_output', 'C04_multiline_contains_parser_outputs', 'C04_simple_in_multiline', 'C04_roundtrip_select_partial', 'C04_fixpoint_select_partial', 'C04_select_output', 'C04_select_contains_parser_outputs', 'C04_multiline_in_select', 'C04_roundtrip_wellformed_sources_partial', 'C04_roundtrip_layout_sources_partial', 'C04_parser_output_shape', 'C04_roundtrip_parser_outputs_partial', 'C04_roundtrip_covered_partial', 'C04_parser_output_utf8', 'C04_roundtrip_str_inputs_partial', 'C04_roundtrip_nested_partial', 'C04_fixpoint_nested_partial', 'C04_nested_output', 'C04_nested_contains_parser_outputs', 'C04_write_char_into_indent_line_start', 'C04_write_char_into_indent_elsewhere', 'C04_write_char_into_indent_general', 'C04_final_indent_zero', 'C04_parser_output_identifiers', 'C04_parser_output_content', 'C04_roundtrip_errorfree_partial', 'C04_multiline_in_nested', 'C04_simple_output', 'C04_roundtrip_statement_refuted_by_D7', 'C04_fixpoint_statement_refuted_by_D7', 'C04_parser_output_lines', 'C04_parser_output_nocr', 'C04_roundtrip_errorfree_nocr_partial']
 MODEL = 'syn'
 HARNESS_BINS = ['syn_run']
 ANCHORS = ['fluent-syntax/src/serializer.rs', 'fluent-syntax/src/parser/pattern.rs', 'fluent-syntax/src/parser/comment.rs']
@@ -144,22 +144,52 @@ def oracle(case, out):
     return None
 
 
-def single_line_leading_space(tree):
-    """D30 class: some pattern has no line break in its text and its first element is text starting with a space"""
+def every_line_leading_space(tree):
+    """D30 class: some pattern has NO line at indentation 0 — its first element is text starting with a space and every later
+    non-blank line also starts with a space (a line that starts with a placeable counts as indentation 0).  No source can spell
+    such a value (dedentation always leaves one line at 0) except through the lone-CR last line of D30, and the serializer cannot
+    write it.  The single-line case (no line break in any text element) is the original witness."""
+    def lines_of(els):
+        cur = []           # the current line as a list of ('t', bytes) / ('p',)
+        for e in els:
+            if sexp.tag(e) == 't':
+                parts = e[1].split(b'\n')
+                for k, part in enumerate(parts):
+                    if k > 0:
+                        yield cur
+                        cur = []
+                    if part:
+                        cur.append(('t', part))
+            else:
+                cur.append(('p',))
+        yield cur
+
     def walk(x):
         if isinstance(x, list):
             if x and x[0] == b'pat':
-                els = x[1:]
-                if els and sexp.tag(els[0]) == 't' and els[0][1][:1] == b' ' and not any(sexp.tag(e) == 't' and b'\n' in e[1] for e in els):
+                ok = True
+                seen = False
+                for ln in lines_of(x[1:]):
+                    if not ln or all(i[0] == 't' and i[1].strip(b' \r') == b'' for i in ln):
+                        continue                      # blank line
+                    seen = True
+                    if ln[0][0] != 't' or ln[0][1][:1] != b' ':
+                        ok = False
+                        break
+                if ok and seen:
                     return True
             return any(walk(y) for y in x)
         return False
     return walk(tree)
 
 
+def has_lone_cr(text):
+    return any(text[i:i + 1] == b'\r' and text[i + 1:i + 2] != b'\n' for i in range(len(text)))
+
+
 def classify(case, why, out=''):
     try:
-        if single_line_leading_space(sexp.loads(out)[1]):
+        if has_lone_cr(sexp.loads(case)[2]) and every_line_leading_space(sexp.loads(out)[1]):
             return 'D30'
     except Exception:
         pass
@@ -200,20 +230,20 @@ def nontrivial(case, out):
 
 
 PARTIAL = ('serializer totality, balanced indentation, buffer growth, Junk and comment emission are proved for ALL trees. Round trip AND fixed '
-           'point (both options) are proved (C04_roundtrip_parser_outputs_partial) for EVERY tree the parser can return whose joined tree is '
-           'well-formed in the sense of Render.v (wf_resource, wf_utf8_resource: decidable premises on the tree), using the shape theorem '
-           'C04_parser_output_shape (no hypothesis on the input: no empty patterns or text elements, no braces in text, LF only last, trimmed '
-           'tail, one default per select, ...). In particular for the parser output of EVERY layout of EVERY well-formed tree '
-           '(C04_roundtrip_layout_sources_partial, C04_roundtrip_wellformed_sources_partial). Outside the proof, decided by the round-trip '
-           'oracle on the implementation: trees with Junk, zero-line comments (D7), blank pattern lines that keep spaces beyond the common '
-           'indent, lone CRs in text, the leading spaces of D30. The unrestricted statements are refuted on the current tree by D7.')
+           'point (both options) are PROVED for the parser output of EVERY error-free source that is valid UTF-8 and has no CR byte, with one '
+           'side condition on the tree, "no comment with zero lines", which is exactly the known finding D7 '
+           '(C04_roundtrip_errorfree_nocr_partial; it rests on theorems about ALL parser outputs: C04_parser_output_shape, _identifiers '
+           '(lexical validity), _utf8, _content, _lines (the dedentation rules), _nocr), and more generally for every parser output whose '
+           'joined tree satisfies the executable premise c04_covered (C04_roundtrip_covered_partial; CRLF sources fall under this one; the '
+           'evidence counts how many generated inputs do). Outside the proof, decided by the round-trip oracle on the implementation: '
+           'trees with Junk, D7, lone CRs in text (D30). The unrestricted statements are refuted on the current tree by D7.')
 
 MANIFEST = {
     'text': 'Rocq theorems about the Gallina transliteration of the serializer (SerializerModel.v): never panics and restores the indent '
             'level for ALL trees; Junk verbatim / skipped; comment line format; the exact canonical text; round trip and fixed point '
-            'PROVED for every parser output whose joined tree is well-formed (any nesting of selects, placeables and call arguments, multi-line '
-            'values; shape of ALL parser outputs proved), composed with the parser model; every other parser output (sources '
-            'with Junk, D7, D30, lone CRs) is checked by running parse/serialize/parse/serialize on the extracted model and on the real crate and '
+            'PROVED for the parser output of every error-free CR-free UTF-8 source without a zero-line comment (= D7) and for every parser output '
+            'whose joined tree is well-formed (shape, lexical validity, dedentation rules of ALL parser outputs proved), composed with the '
+            'parser model; every other parser output (sources with Junk, D7, D30, lone CRs) is checked by running parse/serialize/parse/serialize on the extracted model and on the real crate and '
             'comparing both trees and both texts.',
     'note': 'PARTIAL proof of the round trip (fragment). Trusted: as C01 plus String operations as list operations. Known findings D7, D30.',
     'technique': 'Rocq proof (writer invariants for all trees; print/parse round trip for a fragment) + differential correspondence check + round-trip oracle',
